@@ -6,6 +6,8 @@ From Coq Require Import List Bool Arith ZArith NArith Lia Permutation.
 From Coq.Strings Require Import Byte.
 From GR Require Import Base.Bytes Base.Res Base.Dec Codec.Schema Codec.Doc Codec.Escape Codec.Utf8 Codec.Json Codec.Tracker
   Codec.Render Codec.Encode Codec.Decode Proofs.EscapeProofs Gen.TablesCodec.
+From GR Require Proofs.Ror2NoPanic.     (* djmix: how decJ calls itself on default literals (no exclusions, scopeToIgnore 0) *)
+Local Notation djmix := Ror2NoPanic.djmix.
 Import ListNotations.
 
 Local Notation esc fl := (escape v2_hex_chars v2_unescaped_path_chars v2_unescaped_query_chars v2_header_escaped_chars fl).
@@ -397,7 +399,7 @@ Section RT.
 
   Definition lit_value_ (f : nat) (t' : ty) (lit : bytes) : option value :=
     match parse_json lit with
-    | Some jd => match decJ e wc ps_empty ignore parseF f true t' jd tracker0 with Ok (v, _) => Some v | _ => None end
+    | Some jd => match djmix e wc ps_empty ignore parseF f true t' jd tracker0 with Ok (v, _) => Some v | _ => None end
     | None => None
     end.
   Definition fill_ (f : nat) :=
